@@ -52,7 +52,7 @@ Expect(pre, e) ==
 Precond(pre, e) ==
   LET a == e.args  K == pre.kids IN
   CASE e.op = "add_child"     -> CanAttach(K, a[1], a[2]) /\ (a[3] = NOIDX \/ a[3] \in 0..Len(K[a[1]]))
-    [] e.op = "replace_child" -> CanAttach(K, a[1], a[3]) /\ a[2] # a[3]
+    [] e.op = "replace_child" -> ((a[2] = a[3] /\ Has(K[a[1]], a[2])) \/ (CanAttach(K, a[1], a[3]) /\ a[2] # a[3]))
                                  /\ (B(a[4]) /\ Has(K[a[1]], a[2]) => Desc(K, a[2]) \subseteq pre.store)
     [] e.op = "delete"        -> a[1] \in pre.store /\ (B(a[2]) => Desc(K, a[1]) \subseteq pre.store)
     [] OTHER -> TRUE
